@@ -8,6 +8,7 @@
 package c18
 
 import (
+	stdnet "net"
 	"context"
 	"fmt"
 	"os"
@@ -36,6 +37,7 @@ type params struct {
 	Fault  string `json:"fault,omitempty"` // reset | stall-cancel
 	K      int    `json:"k,omitempty"`
 	Object string `json:"object,omitempty"`
+	V6     bool   `json:"v6,omitempty"` // client cases: the live connection is to an IPv6 endpoint
 }
 
 const sandboxParent = "/var/tmp"
@@ -125,6 +127,8 @@ func paths(e *env, peerIP, peerPort string) []pathCase {
 		{"addr-qualified-wrong-ip", fmt.Sprintf("/tmp/FS_10.66.66.66_%s_%s", peerPort, t), false},
 		{"addr-qualified-wrong-port", fmt.Sprintf("/tmp/FS_%s_1_%s", peerIP, t), false},
 		{"addr-qualified-ipv6", fmt.Sprintf("/tmp/FS_::1_%s_%s", peerPort, t), false},
+		{"addr-qualified-other-ipv6", fmt.Sprintf("/tmp/FS_fd00::99_%s_%s", peerPort, t), false},
+		{"addr-qualified-other-ipv4", fmt.Sprintf("/tmp/FS_10.0.0.3_%s_%s", peerPort, t), false},
 		{"addr-qualified-hostname", fmt.Sprintf("/tmp/FS_host.example.org_%s_%s", peerPort, t), false},
 		{"addr-qualified-port-too-long", fmt.Sprintf("/tmp/FS_%s_961800_%s", peerIP, t), false},
 		{"addr-qualified-suffix-dot", fmt.Sprintf("/tmp/FS_%s_%s_%s.x", peerIP, peerPort, t), false},
@@ -172,7 +176,11 @@ func runClient(s *kernel.Sim, c *scen.Case, p params) {
 	t := s.T
 	e := mkenv(c.Seed)
 	defer e.cleanup()
-	pcs := paths(e, "10.0.0.2", "9618")
+	peerIP := "10.0.0.2"
+	if p.V6 {
+		peerIP = "fd00::2"
+	}
+	pcs := paths(e, peerIP, "9618")
 	pc := pcs[p.Path%len(pcs)]
 	if p.Kind == "client" && p.Path >= len(pcs) {
 		// mutation of an accepted path: flip / insert / delete one character
@@ -189,7 +197,7 @@ func runClient(s *kernel.Sim, c *scen.Case, p params) {
 		}
 		pc = pathCase{name: "mutated-accepted-path", path: string(b)}
 		// whether the mutant is still acceptable is judged by the statement's own rule
-		pc.acceptable = acceptableByStatement(pc.path, e.token, "10.0.0.2", "9618")
+		pc.acceptable = acceptableByStatement(pc.path, e.token, peerIP, "9618")
 	}
 	before := e.snapshot()
 	existedBefore := false
@@ -202,6 +210,12 @@ func runClient(s *kernel.Sim, c *scen.Case, p params) {
 	defer cancel()
 	net := simnet.New(s, simnet.Config{MaxLatency: 10 * time.Millisecond, ShortReads: t.Choose("short", 2) == 1})
 	pr := hs.NewPair(net, 1)
+	if p.V6 {
+		ce, se := net.Pipe("cli1", "srv1", "[fd00::1]:50001", "[fd00::2]:9618")
+		ce.Tap()
+		se.Tap()
+		pr = &hs.Pair{Net: net, CE: ce, SE: se, CS: stream.NewStream(ce), SS: stream.NewStream(se)}
+	}
 	cfg := hs.Cfg(security.SecurityRequired, security.SecurityOptional, []security.AuthMethod{security.AuthFS}, hs.AES, 60021)
 	cfg.SessionCache = security.NewSessionCache()
 	var cerr error
@@ -366,7 +380,8 @@ func acceptableByStatement(p, token, peerIP, peerPort string) bool {
 	}
 	f := strings.Split(rest, "_")
 	if len(f) == 3 && alnum(f[2]) {
-		return f[0] == peerIP && f[1] == peerPort
+		a, b := stdnet.ParseIP(f[0]), stdnet.ParseIP(peerIP)
+		return a != nil && b != nil && a.Equal(b) && f[1] == peerPort
 	}
 	return false
 }
@@ -535,7 +550,7 @@ func gen(g *scen.Gen) {
 	}
 	npaths := len(paths(&env{token: "t", sandbox: "/var/tmp/c18_t", link: "/tmp/l", subdir: "/tmp/s"}, "10.0.0.2", "9618"))
 	for i := 0; i < npaths; i++ {
-		if !emit(params{Kind: "client", Path: i}) {
+		if !emit(params{Kind: "client", Path: i}) || !emit(params{Kind: "client", Path: i, V6: true}) {
 			return
 		}
 	}
